@@ -217,6 +217,9 @@ def r12d(ctx):
 def r12e(ctx):
     """K10 on the directory-scan path: slice / index operations on decoded directory-entry names."""
     F = ctx.F
+    if getattr(F, 'config', 'rel') != 'rel':
+        ctx.info('R12e', 'scan path', '-', 'panic-freedom is decided in release semantics only (debug_assert! exists to panic in development builds); skipped in the %s configuration' % F.config)
+        return
     fns = [INIT, D + 'read_dir', D + 'is_ok_dir', D + 'try_parse_key', TPCF, PARSE, D + 'remove_file']
     n = 0
     for p in fns:
